@@ -1531,7 +1531,11 @@ func AggrFunExpr(query *Query, current Map, expr sqlparser.AggrFunc, opts ...Exp
 	key := sqlparser.String(expr)
 	rs, ok := query.singletonExecutions[key]
 	if !ok {
-		slice, err := AggrFuncArgReader(query, map[string]any{"*": query.from}, sqlparser.Exprs{Exprs: expr.GetArgs()})
+		scope := map[string]any{"*": query.from}
+		if _, ok := current["*"]; ok {
+			scope = current
+		}
+		slice, err := AggrFuncArgReader(query, scope, sqlparser.Exprs{Exprs: expr.GetArgs()})
 		if err != nil {
 			return nil, err
 		}
@@ -1695,8 +1699,8 @@ func IsSelectAllAggregate(query *Query) bool {
 
 func ExecSelect(query *Query, current []any) ([]any, error) {
 	copy := make([]any, 0)
-	if IsSelectAllAggregate(query) {
-		rs, err := SelectExpr(query, nil, &query.selectDefinition)
+	if IsSelectAllAggregate(query) && len(query.groupDefinition) == 0 {
+		rs, err := SelectExpr(query, Map{"*": current}, &query.selectDefinition)
 		if err != nil {
 			return nil, err
 		}
